@@ -54,3 +54,27 @@ Definition logsoftmax_bwd (g l : list R) (i : nat) : R :=
 (* SoftmaxCrossEntropy: grad * (softmax - onehot(y)) * c *)
 Definition xent_bwd (g c : R) (y : nat) (l : list R) (i : nat) : R :=
   g * ((nth i (vsoftmax l) 0 - (if Nat.eqb i y then 1 else 0)) * c).
+
+(* ---- batch normalisation of one channel (lane = all elements of that channel), nnet/layers/batchnorm.py ---- *)
+Definition bn_std (eps : R) (l : list R) : R := sqrt (vvar 0 l + eps).
+Definition bn_xnorm (eps : R) (l : list R) : list R := map (fun x => (x - vmean l) / bn_std eps l) l.
+Definition vbatchnorm (gamma beta eps : R) (l : list R) : list R := map (fun y => gamma * y + beta) (bn_xnorm eps l).
+(* backward_var index 0:  (grad - mean(grad) - x_norm * (x_norm . grad) / N) / std * gamma *)
+Definition bn_x_bwd (g : list R) (gamma eps : R) (l : list R) (i : nat) : R :=
+  (nth i g 0 - vmean g - nth i (bn_xnorm eps l) 0 * dot g (bn_xnorm eps l) / vlen l) / bn_std eps l * gamma.
+(* index 1 (gamma): einsum(grad, x_norm);  index 2 (beta): grad.sum() *)
+Definition bn_gamma_bwd (g : list R) (eps : R) (l : list R) : R := dot g (bn_xnorm eps l).
+Definition bn_beta_bwd (g : list R) : R := vsum g.
+
+(* ---- vector p-norm of one lane, linalg/ops.py (Norm) ---- *)
+Definition sgn (x : R) : R := if Rlt_dec 0 x then 1 else if Rlt_dec x 0 then -1 else 0.
+(* |x| ** p with NumPy's 0 ** p = 0 (p <> 0) *)
+Definition abspow (x p : R) : R := if Req_EM_T x 0 then (if Req_EM_T p 0 then 1 else 0) else Rpower (Rabs x) p.
+Definition vnorm1 (l : list R) : R := vsum (map Rabs l).
+Definition vnorm2 (l : list R) : R := sqrt (vsum (map (fun x => x ^ 2) l)).
+Definition vnormp (p : R) (l : list R) : R := Rpower (vsum (map (fun x => abspow x p) l)) (/ p).
+Definition norm1_bwd (g : R) (l : list R) (i : nat) : R := sgn (nth i l 0) * g.
+Definition norm2_bwd (g : R) (l : list R) (i : nat) : R := nth i l 0 / vnorm2 l * g.
+(* general ord: |x|**(ord-1) * sign(x) * (norm / sum(|x|**ord)) * grad *)
+Definition normp_bwd (p g : R) (l : list R) (i : nat) : R :=
+  abspow (nth i l 0) (p - 1) * sgn (nth i l 0) * (vnormp p l / vsum (map (fun x => abspow x p) l)) * g.
